@@ -1,5 +1,244 @@
 /-
-C07 — property theorems (stub: no theorem stated yet, so no obligation is counted).
+C07 — Header serialisation round trips and keeps identity invariants under edits.
+PROPERTY THEOREMS ONLY (model: Hts.Model.Header, the REPAIRED code, fixes/C07-1 … C07-9).
+
+Part 1: identity invariants under arbitrary edit histories.  A history is any list of `Op` (NewHeader with
+text and references, UnmarshalText / DecodeBinary of arbitrary bytes, Add/Remove/SetName/Clone of references,
+read groups and programs through any pointer the caller may hold — stale ones included —, Header.Clone,
+MergeHeaders, field edits), executed by `step` from the empty world.  `E : Ext` (date and URI parsing) is
+arbitrary.
 -/
+import Hts.Lemmas.HeaderApi
 namespace Hts.Props.C07
+open Hts.Model.Header
+
+/-- `HInv w h`: for references, read groups and programs of header `h` — ids equal indices, every listed
+item is owned by `h`, and the name table is exactly `{name_i ↦ i}` (see `TabInv`) -/
+def HInv (w : World) (h : Nat) : Prop := KindInv w.refs h ∧ KindInv w.rgs h ∧ KindInv w.pgs h
+
+theorem hinv_of_winv {w : World} (hw : WInv w) {h : Nat} (hh : h < w.hdrs.length) : HInv w h :=
+  kinds_of_winv hw hh
+
+/-! ### the invariant is established by NewHeader and kept by every operation -/
+
+/-- the empty world satisfies the invariant -/
+theorem hinv_empty : WInv {} := winv_empty
+
+/-- `NewHeader(text, refs)` (any text, any references — used, duplicated, … —, successful or not) keeps
+the invariant of the world, and the header it builds satisfies `HInv` -/
+theorem hinv_init (E : Ext) (w : World) (hw : WInv w) (text : Bytes) (refs : List Nat) :
+    WInv (newHeader E w text refs).1 ∧ HInv (newHeader E w text refs).1 w.hdrs.length := by
+  have h1 := winv_newHeader E hw text refs
+  exact ⟨h1, hinv_of_winv h1 (by rw [newHeader_hdrs_len]; omega)⟩
+
+/-- every operation keeps the invariant -/
+theorem hinv_step (E : Ext) (w : World) (hw : WInv w) (op : Op) : WInv (step E w op).w := winv_step E hw op
+
+/-- the invariant holds after ANY history, for every header of the world -/
+theorem hinv_reachable (E : Ext) (ops : List Op) :
+    WInv (run E {} ops) ∧ ∀ h, h < (run E {} ops).hdrs.length → HInv (run E {} ops) h :=
+  ⟨winv_run E ops {} winv_empty, fun _ hh => hinv_of_winv (winv_run E ops {} winv_empty) hh⟩
+
+/-! ### what the invariant says about the lists a header exposes (`Refs()`, `RGs()`, `Progs()`) -/
+
+/-- ids equal indices: the item at index `i` has `ID() = i` -/
+theorem ids_eq_index {α : Type} {k : KW α} {h : Nat} (hk : KindInv k h) {i : Nat} {id : Int} {n : Bytes} {d : α}
+    (hi : (items k h)[i]? = some (id, n, d)) : id = (i : Int) := by
+  obtain ⟨t, ht, T⟩ := hk
+  obtain ⟨o, x, hio, hx, e⟩ := (items_get ht T i _).1 hi
+  cases e; exact (T.listed hio hx).2
+
+/-- names are unique within a header -/
+theorem names_unique {α : Type} {k : KW α} {h : Nat} (hk : KindInv k h) {i j : Nat} {a b : Int} {n : Bytes} {d d' : α}
+    (hi : (items k h)[i]? = some (a, n, d)) (hj : (items k h)[j]? = some (b, n, d')) : i = j := by
+  obtain ⟨t, ht, T⟩ := hk
+  obtain ⟨o, x, hio, hx, e⟩ := (items_get ht T i _).1 hi
+  obtain ⟨o', x', hjo, hx', e'⟩ := (items_get ht T j _).1 hj
+  simp only [Prod.mk.injEq] at e e'
+  exact T.name_inj hio hjo hx hx' (by rw [← e.2.1, ← e'.2.1])
+
+/-- the name table is exactly `{name_i ↦ i}`: a lookup by name finds index `i` iff the item at `i` has that name -/
+theorem lookup_by_name {α : Type} {k : KW α} {h : Nat} {t : Tab} (ht : k.tabs[h]? = some t) (T : TabInv k.heap h t)
+    (n : Bytes) (i : Nat) :
+    lookup t.seen n = some (i : Int) ↔ ∃ (id : Int) (d : α), (items k h)[i]? = some (id, n, d) := by
+  constructor
+  · intro hl
+    obtain ⟨j, o, x, hj, hx, hn, hv⟩ := T.only n _ hl
+    have : i = j := by omega
+    subst this
+    exact ⟨x.id, x.dat, (items_get ht T i _).2 ⟨o, x, hj, hx, by rw [hn]⟩⟩
+  · rintro ⟨id, d, hi⟩
+    obtain ⟨o, x, hio, hx, e⟩ := (items_get ht T i _).1 hi
+    cases e; exact T.known i o x hio hx
+
+/-- a lookup by name never yields an index outside the list -/
+theorem lookup_in_range {α : Type} {k : KW α} {h : Nat} {t : Tab} (T : TabInv k.heap h t) {n : Bytes} {v : Int}
+    (hl : lookup t.seen n = some v) : 0 ≤ v ∧ v < t.items.length := by
+  obtain ⟨i, o, x, hi, _, _, hv⟩ := T.only n v hl
+  have := get_lt hi
+  omega
+
+/-- every listed item is owned by the header, and an object that names a header as its owner is listed by it -/
+theorem listed_iff_owned {α : Type} {k : KW α} (hk : KInv k) {h o : Nat} {x : Obj α} {t : Tab}
+    (ht : k.tabs[h]? = some t) (hx : k.heap[o]? = some x) :
+    (∃ (i : Nat), t.items[i]? = some o) ↔ x.owner = some h := by
+  constructor
+  · rintro ⟨i, hi⟩; exact ((hk.tab h t ht).listed hi hx).1
+  · intro ho
+    obtain ⟨t', i, ht', _, hi⟩ := hk.obj o x h hx ho
+    rw [ht] at ht'; cases ht'; exact ⟨i, hi⟩
+
+/-! ### merges -/
+
+/-- `MergeHeaders(src)` (two or more live sources): the link table has one row per source and one entry per
+source reference; every entry is a reference that the merged header lists at its id (so it is owned by the
+merged header) and that has the name and the length of the source reference; the sources are unchanged. -/
+theorem merge_links (w w' : World) (hw : WInv w) (srcs : List Nat) (ls : List (List Nat))
+    (hs : ∀ s ∈ srcs, s < w.hdrs.length) (hm : mergeHeaders w srcs = (w', .ok, ls)) :
+    LinksOk w'.refs w.hdrs.length srcs ls ∧ ∀ s ∈ srcs, objsOf w'.refs s = objsOf w.refs s :=
+  mergeHeaders_links hw hs hm
+
+/-! ### the edit operations never panic on a consistent world -/
+
+theorem edits_never_panic (E : Ext) (w : World) (hw : WInv w) (op : Op)
+    (hop : match op with
+      | .ar .. | .rr .. | .sr .. | .ag .. | .rg .. | .sg .. | .ap .. | .rp .. | .sp .. | .cl .. => True
+      | _ => False) : (step E w op).res ≠ .panic := by
+  cases op <;> simp only at hop
+  case ar h p =>
+    simp only [step]; split
+    · exact addReference_no_panic hw.refs _ _
+    · simp
+  case rr h p =>
+    simp only [step]; split
+    · unfold KW.remove; repeat' split
+      all_goals simp
+    · simp
+  case sr p n =>
+    simp only [step]; split
+    · exact setName_no_panic hw.refs _ _
+    · simp
+  case ag h p =>
+    simp only [step]; split
+    · unfold KW.addUniq KW.addNew; repeat' split
+      all_goals simp
+    · simp
+  case rg h p =>
+    simp only [step]; split
+    · unfold KW.remove; repeat' split
+      all_goals simp
+    · simp
+  case sg p n =>
+    simp only [step]; split
+    · exact setName_no_panic hw.rgs _ _
+    · simp
+  case ap h p =>
+    simp only [step]; split
+    · unfold KW.addUniq KW.addNew; repeat' split
+      all_goals simp
+    · simp
+  case rp h p =>
+    simp only [step]; split
+    · unfold KW.remove; repeat' split
+      all_goals simp
+    · simp
+  case sp p n =>
+    simp only [step]; split
+    · exact setName_no_panic hw.pgs _ _
+    · simp
+  case cl h =>
+    simp only [step]; split <;> simp
+
+/-! ## Part 2: serialisation round trips
+
+`E : Ext` are the external parsers: `E.parseDate` = `parseISO8601` then `Format`, `E.parseUri` = `url.Parse`, the
+scheme rewriting of the @SQ parser, then `String()`.  A date held by a read group is its canonical text, i.e. a
+fixed point of `E.parseDate` (the law assumed of package `time`: `Format ∘ Parse ∘ Format = Format`).
+
+"Built through the API" (`ApiBuilt`): no tab / line feed / carriage return in any name or value (comments may hold
+tabs); a version is present whenever any @HD field is set; sort and group order are one of the four constants;
+lengths and insert sizes are in range; an MD5 is 16 bytes; extra tags are distinct two-byte tags other than the ones
+the library has a field for. -/
+
+/-- THE FULL STATEMENT (not a theorem: it is false, see `text_roundtrip_witness`): for every header built through
+the API, parsing its text into a fresh header succeeds and exposes equal values -/
+def text_roundtrip_full : Prop :=
+  ∀ (E : Ext) (w : World), WInv w → ∀ h, h < w.hdrs.length → ApiBuilt E (view w h) →
+    ∃ w', unmarshalText E (pushHeader w {}) w.hdrs.length (marshalText w h) = (w', .ok) ∧
+      view w' w.hdrs.length = view w h
+
+/-- text round trip, with the excluding hypothesis explicit: every URI already has the form the parser produces.
+Parsing the text of the header into a fresh header succeeds; the new header exposes equal values (version, orders,
+extra tags, comments, every reference / read group / program with its id, name and fields), hence serialises to
+identical text and binary. -/
+theorem text_roundtrip_partial (E : Ext) (w : World) (hw : WInv w) (h : Nat) (hh : h < w.hdrs.length)
+    (api : ApiBuilt E (view w h)) (uc : UriCanon E (view w h)) :
+    ∃ w', unmarshalText E (pushHeader w {}) w.hdrs.length (marshalText w h) = (w', .ok) ∧ WInv w' ∧
+      view w' w.hdrs.length = view w h ∧
+      marshalText w' w.hdrs.length = marshalText w h ∧ marshalBinary w' w.hdrs.length = marshalBinary w h := by
+  obtain ⟨w', h1, h2, h3, _⟩ := text_roundtrip_view E w hw (view w h) (wfview_of E hw hh api uc)
+  exact ⟨w', h1, h2, h3, by simp only [marshalText, h3], by simp only [marshalBinary, h3]⟩
+
+/-- binary round trip (DecodeBinary ∘ EncodeBinary), same excluding hypothesis, sizes within the int32 fields of the
+format: the decoded header exposes equal values, hence serialises to identical text and binary -/
+theorem binary_roundtrip_partial (E : Ext) (w : World) (hw : WInv w) (h : Nat) (hh : h < w.hdrs.length)
+    (api : ApiBuilt E (view w h)) (uc : UriCanon E (view w h))
+    (hs1 : ((marshalText w h).length : Int) < 2147483648) (hs2 : ((view w h).refs.length : Int) < 2147483648)
+    (hs3 : ∀ r ∈ (view w h).refs, (r.2.1.length : Int) + 1 < 2147483648) :
+    ∃ w', decodeBinary E (pushHeader w {}) w.hdrs.length (marshalBinary w h) = (w', .ok) ∧ WInv w' ∧
+      view w' w.hdrs.length = view w h ∧
+      marshalText w' w.hdrs.length = marshalText w h ∧ marshalBinary w' w.hdrs.length = marshalBinary w h := by
+  obtain ⟨w', h1, h2, h3⟩ := binary_roundtrip_view E w hw (view w h) (wfview_of E hw hh api uc) hs1 hs2 hs3
+  exact ⟨w', h1, h2, h3, by simp only [marshalText, h3], by simp only [marshalBinary, h3]⟩
+
+def binary_roundtrip_full : Prop :=
+  ∀ (E : Ext) (w : World), WInv w → ∀ h, h < w.hdrs.length → ApiBuilt E (view w h) →
+    ((marshalText w h).length : Int) < 2147483648 → ((view w h).refs.length : Int) < 2147483648 →
+    (∀ r ∈ (view w h).refs, (r.2.1.length : Int) + 1 < 2147483648) →
+    ∃ w', decodeBinary E (pushHeader w {}) w.hdrs.length (marshalBinary w h) = (w', .ok) ∧
+      view w' w.hdrs.length = view w h
+
+/-! ### the counterexample to the full statements (defect #26, recorded as a known finding): a reference built
+through the API with the URI "/data/a.fa" — its text `UR:/data/a.fa` parses back as `UR:file:///data/a.fa` -/
+
+theorem text_roundtrip_witness : ¬ text_roundtrip_full := by
+  intro hfull
+  obtain ⟨w', hu, hv⟩ := hfull goExt wW wW_inv 0 (by decide) wW_api
+  have h1 := wW_parse
+  rw [hu, hv, wW_view] at h1
+  revert h1; decide
+
+theorem binary_roundtrip_witness : ¬ binary_roundtrip_full := by
+  intro hfull
+  obtain ⟨w', hu, hv⟩ := hfull goExt wW wW_inv 0 (by decide) wW_api (by decide) (by decide)
+    (by rw [wW_view]; intro r hr; simp only [List.mem_singleton] at hr; subst hr; decide)
+  have h1 := wW_decode
+  rw [hu, hv, wW_view] at h1
+  revert h1; decide
+
+/-! ### non-vacuity of the round-trip theorems (tests): a header with a version, sort order, a reference with MD5,
+URI and an extra tag, a read group with a date in a non-UTC zone and an insert size, a program, a comment with a tab -/
+
+set_option maxRecDepth 100000 in
+/-- the hypotheses of `text_roundtrip_partial` / `binary_roundtrip_partial` are satisfiable by a non-trivial header,
+and the conclusion can be observed on it -/
+example : ∃ w', unmarshalText goExt (pushHeader wE {}) wE.hdrs.length (marshalText wE 0) = (w', .ok) ∧ WInv w' ∧
+    view w' wE.hdrs.length = view wE 0 ∧ marshalText w' wE.hdrs.length = marshalText wE 0 ∧
+    marshalBinary w' wE.hdrs.length = marshalBinary wE 0 :=
+  text_roundtrip_partial goExt wE wE_inv 0 (by decide) wE_api.1 wE_api.2
+set_option maxRecDepth 1000000 in
+example : marshalText wE 0 = exText := by decide
+
+/-! ### non-vacuity (tests): a history with remove-then-add of the same name, a rename through a stale
+pointer, a clone, parsed text, and a merge of three overlapping headers in which a reference is replaced -/
+def exOps : List Op :=
+  [.h0, .nr [97] { len := 10 }, .nr [98] { len := 20 }, .ar 0 0, .ar 0 1, .rr 0 0, .nr [98] { len := 20, asm := [120] },
+   .ar 0 2, .sr 1 [99], .cl 0, .pa (str "@SQ\tSN:b\tLN:20\tUR:http://x/y\n@SQ\tSN:c\tLN:20\tXX:1\n"), .mg [2, 1, 0]]
+set_option maxRecDepth 100000 in
+example : (run goExt {} exOps).hdrs.length = 4 := by decide
+set_option maxRecDepth 100000 in
+example : (view (run goExt {} exOps) 3).refs.map (fun x => (x.1, x.2.1)) = [(0, [98]), (1, [99])] := by decide
+set_option maxRecDepth 100000 in
+example : (step goExt (run goExt {} exOps.dropLast) (.mg [2, 1, 0])).links = some (3, [[6, 9], [9], [9]]) := by decide
+
 end Hts.Props.C07
